@@ -573,10 +573,10 @@ class find_stackings_c:
               "pairs": "list[tuple[Residue3D,Residue3D,str]]", "stackings": "list[rec[Stacking]]"}
     requires = [
         # distinct participating residues have distinct base centroids (the centroid-keyed dictionary is lossy otherwise)
-        f"forall(lambda a, b: implies(0 <= a and a < b and b < {_N} and {_EL('a')} and {_EL('b')}, cen({_S}[a]) != cen({_S}[b])), pats=[['ident({_S}[a])', 'ident({_S}[b])']])",
+        f"forall(lambda a, b: implies(0 <= a and a < b and b < {_N} and {_EL('a')} and {_EL('b')}, cen({_S}[a]) != cen({_S}[b])), pats=[['cenx({_S}[a])', 'cenx({_S}[b])']])",
         # ... and distinct identifiers
         f"forall(lambda a, b: implies(0 <= a and a < b and b < {_N} and {_EL('a')} and {_EL('b')}, "
-        f"not ({_S}[a].label == {_S}[b].label and {_S}[a].auth == {_S}[b].auth)), pats=[['ident({_S}[a])', 'ident({_S}[b])']])",
+        f"not ({_S}[a].label == {_S}[b].label and {_S}[a].auth == {_S}[b].auth)), pats=[['{_S}[a].label', '{_S}[b].label']])",
         # an existing base normal is a non-zero vector (tertiary.py returns a unit vector; NaN for collinear atoms is outside A-real)
         f"forall(lambda a: implies(0 <= a and a < {_N} and not is_none({_S}[a].base_normal_vector), "
         f"dot3(some({_S}[a].base_normal_vector), some({_S}[a].base_normal_vector)) > 0), pats=['ident({_S}[a])'])",
